@@ -16,18 +16,21 @@ RefCheck(cond, clause) == IF cond THEN TRUE ELSE PrintT(<<"DIVERGE", clause, l>>
 \*  date; elsewhere they are the characters themselves)
 Cult(e) == [tsep |-> IF e.type \in {"LocalTime", "LocalDateTime", "Instant", "Offset", "Duration"} THEN e.time_sep ELSE <<58>>,
             dsep |-> IF e.type \in {"LocalDate", "LocalDateTime", "Instant", "AnnualDate"} THEN e.date_sep ELSE <<47>>,
-            am |-> e.am, pm |-> e.pm]
+            am |-> e.am, pm |-> e.pm,
+            hasDay |-> HasTok(e.tokens, {"d", "dd"}), names |-> IF Has(e, "names") THEN e.names ELSE <<>>]
 Predictable(e) ==
   /\ Has(e, "exact_tokens") /\ e.exact_tokens /\ Has(e, "text") /\ Has(e, "am")
   /\ CASE e.type = "Offset" -> Understood(e.tokens, OffsetFmtVocab)
         [] e.type = "Duration" -> Understood(e.tokens, DurationFmtVocab) /\ e.parts.days < 2000000000
-        [] e.type \in {"LocalTime", "LocalDate", "LocalDateTime", "AnnualDate", "Instant"} -> Understood(e.tokens, FieldVocab)
+        [] e.type \in {"LocalTime", "LocalDate", "LocalDateTime", "AnnualDate", "Instant"} ->
+             Understood(e.tokens, FieldVocab \cup (IF Has(e, "names") THEN NameVocab ELSE {}))
         [] OTHER -> FALSE
 RefText(e) ==
   CASE e.type = "Offset" -> FormatOffset(e.tokens, 1, e.value.sec, Cult(e))
     [] e.type = "Instant" -> FormatFields(e.tokens, 1, e.parts, Cult(e))
     [] e.type = "Duration" -> FormatDuration(e.tokens, 1, e.parts, Cult(e))
-    [] OTHER -> FormatFields(e.tokens, 1, e.value, Cult(e))
+    [] OTHER -> FormatFields(e.tokens, 1, IF Has(e, "dow") THEN [x \in DOMAIN e.value \cup {"dow"} |-> IF x = "dow" THEN e.dow ELSE e.value[x]] ELSE e.value,
+                             Cult(e))
 
 \* the culture renders ':' or '/' as text beginning with '.' or ',' and that separator follows an optional fraction: not delimited after all
 \* (in offset and duration patterns the negative-only sign "-" prints nothing for non-negative values: it separates nothing)
